@@ -57,7 +57,11 @@ impl TimeParser {
                     *value = serde_json::Value::Number(norm.into());
                     Ok(())
                 } else if let Some(f) = n.as_f64() {
-                    // Treat float as seconds.
+                    // Treat float as seconds. Reject values whose floor is not a representable
+                    // second count: the cast below would silently saturate to i64::MIN/MAX.
+                    if !(f >= -9_223_372_036_854_775_808.0 && f < 9_223_372_036_854_775_808.0) {
+                        return Err(format!("Float time value out of range: {f}"));
+                    }
                     let secs = f.floor() as i64;
                     *value = serde_json::Value::Number(secs.into());
                     Ok(())
